@@ -57,6 +57,9 @@ func genC19(seed int64, tier string) *Scenario {
 			kind := c19Kinds[rng.Intn(len(c19Kinds))]
 			o := Op{Kind: "request", Host: "web.test", Path: fmt.Sprintf("/p%d/%d?k=%d&x=a;b", c, i, rng.Intn(100)), Tag: kind, Delay: time.Duration(20+rng.Intn(80)) * time.Millisecond,
 				Headers: [][2]string{{"X-Custom", fmt.Sprintf("v%d", rng.Intn(1000))}, {"User-Agent", "sim-client/" + fmt.Sprint(rng.Intn(9))}}}
+			if rng.Intn(2) == 0 { // the logged request header occurs twice
+				o.Headers = append(o.Headers, [2]string{"X-Custom", fmt.Sprintf("w%d", rng.Intn(1000))})
+			}
 			if i == 0 {
 				o.Delay += 500 * time.Millisecond // after the setup commands
 			}
@@ -64,6 +67,9 @@ func genC19(seed int64, tier string) *Scenario {
 			switch kind {
 			case "served":
 				o.Sim = fmt.Sprintf("size=%d;hdr=X-Extra:e%d", size, rng.Intn(50))
+				if rng.Intn(2) == 0 { // the logged response header occurs twice
+					o.Sim += fmt.Sprintf(";hdr=X-Extra:f%d", rng.Intn(50))
+				}
 			case "served-post":
 				o.Method, o.Body = "POST", strings.Repeat("q", 1+rng.Intn(250))
 				o.Headers = append(o.Headers, [2]string{"Content-Type", "text/x-sim"})
@@ -151,7 +157,9 @@ func headerValue(hs [][2]string, name string) string {
 func checkC19(r *RunResult) []Violation {
 	var out []Violation
 	w := r.W
-	add := func(clause, sig, msg string) { out = append(out, Violation{Prop: "C19", Clause: clause, Sig: sig, Msg: msg}) }
+	add := func(clause, sig, msg string) {
+		out = append(out, Violation{Prop: "C19", Clause: clause, Sig: sig, Msg: msg})
+	}
 	byID := map[string][]map[string]any{}
 	for _, rec := range w.Logs {
 		id := logStr(rec, "request_id")
